@@ -633,6 +633,42 @@ func (c *Ctx) pointeeKindDepth(u *FuncUnit, ptr ast.Expr, depth int) int64 {
 			}
 			return res
 		}
+		// a call through a function-typed parameter of a helper (newLeaf func() unsafe.Pointer):
+		// every call site must pass a function whose results all have one layout
+		if id, ok := ast.Unparen(call.Fun).(*ast.Ident); ok && u.Lit == nil {
+			if pi := c.m.paramIndex(u, id); pi >= 0 {
+				res := int64(-1)
+				sites := c.callSitesOf(u)
+				for i, s := range sites {
+					a := argFor(s.call, pi)
+					if a == nil {
+						return -1
+					}
+					var fu *FuncUnit
+					if v := identVar(info, a); v != nil {
+						fu = c.m.LitOfVar[v]
+					}
+					if fl, isLit := ast.Unparen(a).(*ast.FuncLit); isLit {
+						fu = c.m.LitUnit[fl]
+					}
+					if fu == nil {
+						return -1
+					}
+					rets, all := returnExprs(fu)
+					if !all {
+						return -1
+					}
+					for j, r := range rets {
+						k := c.pointeeKindDepth(fu, r, depth+1)
+						if k == -1 || ((i > 0 || j > 0) && k != res) {
+							return -1
+						}
+						res = k
+					}
+				}
+				return res
+			}
+		}
 		return -1
 	}
 	if ue, ok := e.(*ast.UnaryExpr); ok && ue.Op == token.AND {
